@@ -478,6 +478,12 @@ func ruleN1(p *Prog, r *Report) {
 				if fw, ok := fieldWriteOf(x); ok && fw.Kind == "mapdelete" && fw.Ref.is(regOwner, regField) && sameValue(fw.Key, vid) {
 					del = x
 				}
+				// ... or a private untrack helper of the handle called with the detached id
+				if c, ok := x.(*ssa.Call); ok {
+					if kind, ki, ok := p.registryHelper(c.Call.StaticCallee()); ok && kind == "mapdelete" && ki < len(c.Call.Args) && sameValue(c.Call.Args[ki], vid) {
+						del = x
+					}
+				}
 			})
 			if del == nil {
 				r.Bad(R, cons, p.InstrPos(in), "mutableElementIndex entry of the removed/overwritten child is never deleted: a stale handle would still find an index and could overwrite the element that now lives there")
@@ -657,6 +663,11 @@ func ruleN1(p *Prog, r *Report) {
 		n++
 		recv := f.Params[0]
 		isReset := func(x ssa.Instruction) bool {
+			if c, ok := x.(*ssa.Call); ok {
+				if kind, _, ok := p.registryHelper(c.Call.StaticCallee()); ok && kind == "clear" && len(c.Call.Args) > 0 && sameValue(c.Call.Args[0], recv) {
+					return true
+				}
+			}
 			if cc, ok := isBuiltinCall(x, "clear"); ok && len(cc.Args) == 1 {
 				if lf, ok := asLoadedField(cc.Args[0]); ok && lf.is(regOwner, regField) && sameValue(lf.Base, recv) {
 					return true
